@@ -48,7 +48,11 @@ def main():
     try:
         for pl in plans:
             deadline = t0 + budget
-            r = ex.explore(pl['scenario'], pl['args'], tv_every=tv_every, seed=seed, deadline=deadline)
+            args = pl['args']
+            if prop == 'C01' and pl['scenario'] == 'block_expr' and not os.environ.get('VERIF_NO_V8'):
+                # validate the evaluation-order model against V8 on translator-validated paths (every 3rd / every one)
+                args = dict(args, v8={'quick': 3, 'thorough': 1}[tier])
+            r = ex.explore(pl['scenario'], args, tv_every=tv_every, seed=seed, deadline=deadline)
             r['label'] = pl['label']
             runs.append(r)
             if r['error']:
@@ -60,6 +64,9 @@ def main():
                 allv.extend(v for v in r['panics'] if v.get('prop', 'C13') == 'C13')
             if r['tv_bad']:
                 engine_error = 'translator validation disagreement: %s' % json.dumps(r['tv_bad'][0])[:1500]
+                break
+            if r['v8_bad']:
+                engine_error = 'semantic-model validation: V8 distinguishes input and output where the evaluation-order model (jsorder) sees none: %s' % json.dumps(r['v8_bad'][0])[:2500]
                 break
     finally:
         ex.close()
@@ -111,6 +118,7 @@ def main():
             'bounds': [r['label'] for r in runs],
             'scenarios': [{'label': r['label'], 'paths': r['paths'], 'hook_paths': r['hook_paths'], 'tv': r['tv'], 'exhaustive': r['exhaustive']} for r in runs],
             'known_findings_hit': [{'role': role, 'paths': n} for role, k, n, w in known_roles],
+            'v8_model_validation': {k: sum(r['v8'][k] for r in runs) for k in ('compared', 'agree_equal', 'agree_differ', 'model_differs_v8_equal', 'v8_differs_model_equal', 'skipped')},
             'explanation': 'Symbolic execution of the MIR rustc produced from the current /repo sources (mirsym); one state = one explored path of the bounded grammar, transitions = symbolic decisions taken; every obligation is decided by z3 on the path condition; counterexamples are replayed against the native build (translator validation).',
             'mir_key': build['key'],
         },
@@ -130,7 +138,7 @@ def main():
     # ---- report
     print('property=%s tier=%s paths=%d hook_paths=%d obligations=%d queries=%d solver=%.1fs tv=%d wall=%.1fs' % (prop, tier, paths, ev['coverage']['paths_with_hook'], ev['coverage']['obligations'], ev['coverage']['solver_queries'], ev['coverage']['solver_time_s'], ev['coverage']['traces_validated_against_impl'], wall))
     for role, k, n, w in known_roles:
-        print('KNOWN-FINDING: property=%s %s (%s; %d paths%s)' % (prop, role, k.get('what', ''), n, '; e.g. ' + (w.get('input') or '').replace('\n', ' ') if w else ''))
+        print('KNOWN-FINDING: property=%s %s (%s; %d paths%s%s)' % (prop, role, k.get('what', ''), n, '; e.g. ' + (w.get('input') or '').replace('\n', ' ') if w else '', '; V8: %s' % w['v8'].get('verdict') if w and w.get('v8') else ''))
     if engine_error:
         print('INCONCLUSIVE property=%s %s' % (prop, engine_error[:3000]))
         return 2
@@ -142,7 +150,7 @@ def main():
         for i, (role, vs, w) in enumerate(new_roles):
             rec = {'property': prop, 'role': role, 'detail': vs[0]['detail'], 'paths': len(vs), 'trace': vs[0]['trace']}
             if w:
-                rec.update({'input': w.get('input'), 'config': w.get('config'), 'predicted_output': w.get('predicted_output'), 'native_output': w.get('native_output'), 'native': w.get('native'), 'reproduced': w.get('agree'), 'note': w.get('note'), 'file': w.get('file'), 'stubs': w.get('stubs')})
+                rec.update({'v8': w.get('v8'), 'input': w.get('input'), 'config': w.get('config'), 'predicted_output': w.get('predicted_output'), 'native_output': w.get('native_output'), 'native': w.get('native'), 'reproduced': w.get('agree'), 'note': w.get('note'), 'file': w.get('file'), 'stubs': w.get('stubs')})
             q = next((v.get('query') for v in vs if v.get('query')), None)
             if q:
                 rec['query'] = q
